@@ -798,7 +798,7 @@ func defaultNontrivial(v reflect.Value) bool {
 
 // ------------------------------------------------------------- properties
 
-func quickCount(e *entry) (int, int) { return 700, 12000 }
+func quickCount(e *entry) (int, int) { return 1200, 12000 }
 
 // TestC19Encode: for every registered type, generated values encode through
 // every offered path to well-formed, mutually equivalent XML, and (two-way
